@@ -124,7 +124,7 @@ def suite_prop(name, pid, tier, seed):
 
     def report(clause, n, params, box, out, status, detail):
         if pid in CLAUSE_PROPS.get(clause, []) and len(viol) < 400:
-            viol.append(dict(clause=clause, function=f"compute_domains_{name}", n=n, parameters=params, box=[list(b) for b in box], out=out, status=status, detail=detail))
+            viol.append(dict(clause=clause, function=f"compute_domains_{name}", n=n, parameters=params, box=(box if isinstance(box, str) else [list(b) for b in box]), out=out, status=status, detail=detail))
 
     for n, params, (lo, hi) in prop_scopes(name, tier):
         p_arr = np.array(params, dtype=np.int32)
@@ -181,6 +181,54 @@ def suite_prop(name, pid, tier, seed):
                                 report("P6", n, params, box, out, status, f"second call gives status {s2}, {d2.tolist()}")
                         except Exception as e:  # noqa
                             report("P6", n, params, box, out, status, f"second call: {type(e).__name__}")
+    # ---- cases beyond the exhaustive scope that need something specific: index-typed scratch arrays (8/16 bit) and long cycles
+    if name in ("alldifferent", "gcc", "no_sub_cycle", "scc") and time.time() < t_end:
+        rng = random.Random(seed)
+        cases = []
+        if name == "alldifferent":
+            for n in (100, 130, 200, 300):
+                perm = list(range(0, 2 * n, 2))
+                rng.shuffle(perm)
+                cases.append((n, [], [(v, v) for v in perm], 1))  # ground, pairwise different: consistent
+                cases.append((n, [], [(v, v + 1) for v in perm], 1))  # feasible (take the lower value)
+                cases.append((n, [], [(0, n - 2)] * n, 0))  # pigeonhole: inconsistent
+        elif name == "gcc":
+            for n in (100, 130, 200):
+                cases.append((n, [0] + [0] * n + [1] * n, [(i, i) for i in range(n)], 1))
+                cases.append((n, [0] + [0] * n + [1] * n, [(0, n - 1)] * n, 1))
+        else:
+            for n in (5, 6, 7, 8, 9):
+                perms = list(itertools.permutations(range(n))) if n <= 6 else [tuple(rng.sample(range(n), n)) for _ in range(3000 if tier == "quick" else 20000)]
+                if n == 8:  # two 4-cycles visited out of index order, and friends
+                    perms += [(2, 0, 3, 1, 6, 4, 7, 5), (1, 2, 3, 0, 5, 6, 7, 4), (3, 0, 1, 2, 7, 4, 5, 6), (2, 3, 1, 0, 6, 7, 5, 4)]
+                for pm in perms:
+                    cases.append((n, [], [(v, v) for v in pm], None))
+        for n, params, box, expect in cases:
+            if time.time() > t_end:
+                break
+            d = np.array(box, dtype=np.int32).reshape(n, 2)
+            ev += 1
+            try:
+                status = int(guarded(lambda: f(d, np.array(params, dtype=np.int32)), 5.0))
+            except Timeout:
+                report("P9", n, params, box if n < 12 else "large", None, None, "no termination within 5s")
+                continue
+            except Exception as e:  # noqa
+                report("P8", n, params, box if n < 12 else "large", None, None, f"{type(e).__name__}: {e}")
+                report("P2", n, params, box if n < 12 else "large", None, None, f"{type(e).__name__}: {e}")
+                continue
+            nontriv += 1
+            if expect is None:
+                pt = tuple(a for a, _b in box)
+                sat = rel(pt, params)
+                if status != 0 and not sat:
+                    report("P3", n, params, [list(b) for b in box], d.tolist(), status, "ground permutation with a sub-cycle accepted")
+                if status == 0 and sat:
+                    report("P2", n, params, [list(b) for b in box], d.tolist(), status, "ground circuit rejected")
+            elif expect == 1 and status == 0:
+                report("P2", n, params, "large box (see scope)", None, status, f"arity {n}: inconsistency reported although a solution exists (index-typed scratch array?)")
+            elif expect == 0 and status != 0 and name in EXACT:
+                report("P5", n, params, "large box (see scope)", None, status, f"arity {n}: pigeonhole box accepted")
     return dict(suite=f"prop:{name}", evaluations=ev, distinct_nontrivial=nontriv, violations=viol, samples=samples,
                 rule="every box of intervals over the value range for each (arity, parameter vector) of the scope; non-trivial = the call changed a domain, failed or entailed",
                 scope=f"tier {tier}: see prop_scopes('{name}')")
